@@ -14,7 +14,7 @@ def propKernel : B := (.and (.le (.v 0) (.c 1 1)) (.lt (.fn .abs (.sub (.v 2) (.
 def propTermE : E := (.pow (.div (.sub (.v 0) (.v 1)) (.mul (.sub (.v 2) (.v 3)) (.v 4))) 2)
 def distanceIsNorm : Bool := true
 def cfg : TopSearch.Merge.Cfg :=
-  { testNewTsSteps := [.repeatCheck, .lookup .plus, .lookup .minus, .insertIfNone .plus, .insertIfNone .minus, .addTs .plus .minus],
+  { testNewTsSteps := [.repeatCheck, .lookup .plus, .insertIfNone .plus, .lookup .minus, .insertIfNone .minus, .addTs .plus .minus],
     reconvergeSkipsFailed := true,
     attemptKeepsOnlySuccessful := true }
 /-- which element of the search's result tuple is appended at each position of a record -/
